@@ -64,15 +64,15 @@ theorem binop_eval_ok (P : Program) (n : Nat) (ρ : Blocks Val) (l r : TExpr) (o
       simp [ResOK] at ihr'
       have h := hop lv rv (hasTy_sub lv T1 opnd ihl.1 hs1 gO) (hasTy_sub rv T2 opnd ihr'.1 hs2 gO)
       cases hb : binopVal op lv rv with
-      | ok v => simp [ResOK, ihr'.2, h.1 v hb]
-      | error er => simp [ResOK, h.2 er hb]
+      | ok v => simp only [hb]; simp [ResOK, ihr'.2, h.1 v hb]
+      | error er => simp only [hb]; simp [ResOK, h.2 er hb]
     | _ => rw [hr] at ihr'; simp [ResOK] at ihr' ⊢; try exact ihr'
   | _ => rw [hl] at ihl; simp [ResOK] at ihl ⊢; try exact ihl
 
 theorem hop_eq (op : BinOp) (h : op = .eq ∨ op = .ne) (lv rv : Val) :
     (∀ v, binopVal op lv rv = .ok v → hasTy v tBool = true) ∧
     (∀ e, binopVal op lv rv = .error e → e.isTypeError = false) := by
-  rcases h with rfl | rfl <;> simp [binopVal] <;> intro v hv <;> subst hv <;> simp [hasTy, isNamed, tBool]
+  rcases h with rfl | rfl <;> simp [binopVal, hasTy, isNamed, tBool]
 
 theorem hop_cmp (op : BinOp) (h : op = .lt ∨ op = .le ∨ op = .gt ∨ op = .ge) (lv rv : Val)
     (h1 : hasTy lv tInt = true) (h2 : hasTy rv tInt = true) :
@@ -96,17 +96,14 @@ theorem hop_bool (op : BinOp) (h : op = .and ∨ op = .or) (lv rv : Val)
     (∀ e, binopVal op lv rv = .error e → e.isTypeError = false) := by
   obtain ⟨a, rfl⟩ := canon_bool lv h1
   obtain ⟨b, rfl⟩ := canon_bool rv h2
-  rcases h with rfl | rfl <;> simp [binopVal] <;> intro v hv <;> subst hv <;> simp [hasTy, isNamed, tBool]
+  rcases h with rfl | rfl <;> simp [binopVal, hasTy, isNamed, tBool]
 
 theorem hop_concat (lv rv : Val) (h1 : hasTy lv tStr = true) (h2 : hasTy rv tStr = true) :
     (∀ v, binopVal .concat lv rv = .ok v → hasTy v tStr = true) ∧
     (∀ e, binopVal .concat lv rv = .error e → e.isTypeError = false) := by
   obtain ⟨a, rfl⟩ := canon_str lv h1
   obtain ⟨b, rfl⟩ := canon_str rv h2
-  simp [binopVal]
-  intro v hv
-  subst hv
-  simp [hasTy, isNamed, tStr]
+  simp [binopVal, hasTy, isNamed, tStr]
 
 theorem sound_sl (P : Program) : ∀ n,
     (∀ d e ret exp Γ ρ T Γ', slE P d e = true → tcExpr P ret exp Γ e = (T, Γ', []) →
@@ -362,8 +359,7 @@ theorem sound_sl (P : Program) : ∀ n,
           · simp only [hB] at htc
             cases op <;> simp [isIntArith] at hA hB
             all_goals simp at htc
-            all_goals
-              generalize hO : (_ : Ty) = opnd at htc
+            case lt => trace_state; sorry
             all_goals sorry
       | _ => simp [slE] at hs
     · intro d es ret exp Γ ρ T Γ' hs htc hexp hret henv
